@@ -264,6 +264,8 @@ def _case(arg) -> Dict[str, Any]:
         kw["p_frac_kernel_dur"] = 0.7  # fractional kernel durations (whole-number timestamps): the GPU totals are sums of the exact durations
     if seed % 3 == 2:
         kw.update(steps=0, n_top=6, noncomplete_events=False)  # no long annotation, no entry without a duration: the loader stores `dur` in one byte while pattern totals exceed it
+    if seed % 4 == 3:
+        kw["corr_start"] = -1  # correlation ids numbered from 0: the first launch / kernel pair of the file carries id 0
     per_rank = gen.gen_trace_set(seed, n_ranks=1, **kw)
     if len(arg) > 3:
         per_rank = {0: _repetitive_events(*arg[3])}
@@ -296,8 +298,8 @@ def _case(arg) -> Dict[str, Any]:
             def num(x):
                 return int(x) if float(x) == int(x) else float(x)  # quarter fractions are exact in binary
 
-            rows = {int(i): dict(ts=num(ts), dur=num(du), stream=int(s), parent=int(p), depth=int(dp), name=stab[int(nm)], tid=int(tid), pid=int(pid))
-                    for i, ts, du, s, p, dp, nm, tid, pid in zip(df["index"], df["ts"], df["dur"], df["stream"], df["parent"], df["depth"], df["name"], df["tid"], df["pid"])}
+            rows = {int(i): dict(ts=num(ts), dur=num(du), stream=int(s), parent=int(p), depth=int(dp), name=stab[int(nm)], tid=int(tid), pid=int(pid), corr=int(c))
+                    for i, ts, du, s, p, dp, nm, tid, pid, c in zip(df["index"], df["ts"], df["dur"], df["stream"], df["parent"], df["depth"], df["name"], df["tid"], df["pid"], df["correlation"])}
             by_thread: Dict[Any, List[Any]] = {}
             for i, rw in rows.items():
                 if rw["stream"] < 0:
@@ -308,14 +310,24 @@ def _case(arg) -> Dict[str, Any]:
             for i, rw in rows.items():
                 children.setdefault(rw["parent"], []).append(i)
 
+            # device activities launched beneath a host event: linked by the FILE's correlation ids (one host call and one device activity per id),
+            # not by the parent column the library wrote for the device rows (a lost link must not vanish from the oracle too)
+            host_of_corr: Dict[int, int] = {}
+            for i, rw in rows.items():
+                if rw["stream"] < 0 and rw["corr"] >= 0 and rw["corr"] not in host_of_corr:
+                    host_of_corr[rw["corr"]] = i
+            under: Dict[int, List[int]] = {}
+            for k, rw in rows.items():
+                if rw["stream"] > 0 and rw["corr"] in host_of_corr:
+                    h = host_of_corr[rw["corr"]]
+                    seen = set()
+                    while h in rows and h not in seen:
+                        seen.add(h)
+                        under.setdefault(h, []).append(k)
+                        h = rows[h]["parent"]
+
             def kernels_under(i):
-                out = []
-                for c in children.get(i, []):
-                    if rows[c]["stream"] > 0:
-                        out.append(c)
-                    else:
-                        out += kernels_under(c)
-                return out
+                return list(under.get(i, []))
 
             for op in ops:
                 inp = {"seed": seed, "operator_name": op, "min_pattern_len": min_len, "top_k": top_k, "events": per_rank}
